@@ -2,7 +2,7 @@
    Packet level (Frag): what send() does when a transmission attempt finds the receiving end gone.
    Reference level (K/MK, proofs/KProofs.v): when exactly the receiving end is gone. *)
 From Coq Require Import ZArith List Lia.
-From IPC Require Import U64 Params Frag ParamsFacts FragProofs PipeProofs K KProofs Prog Ideal IdealProofs.
+From IPC Require Import U64 Params Frag ParamsFacts FragProofs PipeProofs K KProofs KDed Prog Ideal IdealProofs.
 Import ListNotations.
 Open Scope Z_scope.
 
@@ -47,6 +47,26 @@ Theorem C09_in_transit_is_queued : forall (s : ist) (h : hid) (c : nat) (data : 
   q (get_chan (ik (fst (i_step s (OSend h data nil)))) c) = q (get_chan (ik s) c) ++ {| m_data := data; m_rights := nil |} :: nil.
 Proof. exact IdealProofs.C09_send_ok_queues. Qed.
 Print Assumptions C09_in_transit_is_queued.
+
+(* NO HANG during a multi-packet send (kernel reference level): once the sender has released its own copy of the dedicated
+   receiving end (the fix for C09), that end is referenced only from the first fragment queued in the main channel; when the
+   main receiver goes away its queue is discarded, the dedicated channel dies with it, and every further follow-up send
+   fails instead of blocking for ever *)
+Theorem C09_dedicated_dies_with_receiver : forall k m d,
+  m <> d -> count_occ ref_dec (held k) (RR d) = 0 ->
+  (forall c ch msg, nth_error (chans k) c = Some ch -> dead ch = false -> In msg (q ch) -> In (RR d) (m_rights msg) -> c = m) ->
+  refs k (RR m) = 1 -> In (RR m) (held k) ->
+  let k' := k_close k (RR m) in
+  dead (get_chan k' d) = true /\ forall msg, k_send k' d msg = None.
+Proof. exact ded_dies_with_main. Qed.
+Print Assumptions C09_dedicated_dies_with_receiver.
+(* the defect that was repaired, as a theorem about the same model: a sender that keeps its own copy keeps the
+   dedicated channel alive whatever happens to the main receiver - its blocked send is never woken *)
+Theorem C09_prefix_defect_kept_alive : forall k m d ch,
+  m <> d -> In (RR d) (held k) -> nth_error (chans k) d = Some ch -> dead ch = false ->
+  dead (get_chan (k_close k (RR m)) d) = false.
+Proof. exact ded_kept_alive_by_sender_copy. Qed.
+Print Assumptions C09_prefix_defect_kept_alive.
 
 Example C09_ex_transit :
   snd (i_run i_init [ONew; ONew; OSend 0 1%Z [ARx 3]; OSend 2 7%Z []; ORecv 1; ORecv 4; ODrop 1; ODrop 4; OSend 2 8%Z []])
